@@ -50,5 +50,30 @@ Definition run_c06 (inp : list Z) : list Z :=
   | _ => emalformed
   end.
 
-Definition run := run_c06.
+(* op 10: a history - k length-prefixed inputs of the operations above, evaluated one by one (every
+   operation is a pure function of its arguments: the k-th result does not depend on the calls before it);
+   the outputs are returned length-prefixed *)
+Fixpoint run_batch (fuel : nat) (l : list Z) : option (list Z) :=
+  match fuel with
+  | O => match l with [] => Some [] | _ => None end
+  | Datatypes.S k =>
+      match l with
+      | [] => Some []
+      | len :: rest =>
+          if len <? 0 then None else
+          let n := Z.to_nat len in
+          if Nat.ltb (length rest) n then None else
+          let out := run_c06 (firstn n rest) in
+          match run_batch k (skipn n rest) with
+          | Some r => Some (Z.of_nat (length out) :: out ++ r)
+          | None => None
+          end
+      end
+  end.
+
+Definition run (inp : list Z) : list Z :=
+  match inp with
+  | 10 :: rest => match run_batch (length rest) rest with Some r => 0 :: r | None => emalformed end
+  | _ => run_c06 inp
+  end.
 Extraction "extracted/run_c06.ml" run.
